@@ -953,7 +953,7 @@ Proof. vm_compute. repeat split; reflexivity. Qed.
    max_bits_per_num_block = 49 (code + 48 varint bits of the run prefix),
    max_overshoot_per_num_block = 5, use_gcd = false (TrivialGcdOp).  The body is 419 bytes at
    bit 288 of the file (the middle of word 4): 30 blocks are guaranteed safe as long as
-   30 * 49 + 5 = 1475 bits remain. *)
+   30 * 49 + 5 = 1475 bits remain (5 = MAX_PREFIX_TABLE_SIZE_LOG - 1 at its value 6). *)
 Definition fx_pA : prefix := mkPrefix 60 7 7 [true] (Some 2) 1.
 Definition fx_pB : prefix := mkPrefix 90 1000 1200 [false; true] None 1.
 Definition fx_pC : prefix := mkPrefix 90 0 65535 [false; false] None 1.
@@ -1005,22 +1005,29 @@ Definition fx_unchecked (bytes : list N) (p room : N) : res (N * rpos * N) :=
                    (rfa_max_overshoot_per_num_block fx_table) None room (rb_seek_to p);
   Ok (Nlen l, st, room1).
 
+(* Conjuncts that pin how far the loop of unchecked blocks gets depend on the guard's
+   max_overshoot = MAX_PREFIX_TABLE_SIZE_LOG - 1 - k: they are stated for the value 6 of the
+   repository and are vacuous when the generated constant differs.  Everything else in these
+   examples is computed with whatever the constant is. *)
+Definition at_stride6 (P : Prop) : Prop :=
+  if Consts.MAX_PREFIX_TABLE_SIZE_LOG =? 6 then P else True.
+
 Example rfast_example :
   file_bytes DU16 fx_flags [(fx_xs, fx_table)] = Ok fx_bytes /\ Nlen fx_bytes = 456 /\
   rf_header_bytes DU16 fx_bytes 0 = Ok (fx_flags, (0, 48)) /\
   rf_chunk_meta_bytes DU16 fx_flags fx_bytes 48 = Ok (Some (mkMeta 400 419 [] fx_table), (4, 32)) /\
-  rfa_max_bits_per_num_block 16 fx_table = 49 /\ rfa_max_overshoot_per_num_block fx_table = 5 /\
+  rfa_max_bits_per_num_block 16 fx_table = 49 /\ rfa_max_overshoot_per_num_block fx_table = Consts.MAX_PREFIX_TABLE_SIZE_LOG - 1 /\
   rfa_use_gcd fx_table = false /\
   (* the whole body in one batch: 258 numbers by unchecked blocks (up to word 39), the other
      142 by checked blocks; ends at bit 3634 of 3648 *)
   rfa_batch_bytes 16 16 fx_table fx_bytes 288 400 None 1000 true
   = Ok (mkRb fx_us (56, 50) None true SOk) /\
-  fx_unchecked fx_bytes 288 400 = Ok (258, (39, 4), 142) /\
+  at_stride6 (fx_unchecked fx_bytes 288 400 = Ok (258, (39, 4), 142)) /\
   fx_same fx_bytes 288 400 None 1000 true = true /\
   (* limit 50: the whole batch by unchecked blocks *)
   rfa_batch_bytes 16 16 fx_table fx_bytes 288 400 None 50 true
   = Ok (mkRb (firstn 50 fx_us) (11, 5) None false SOk) /\
-  fx_unchecked fx_bytes 288 50 = Ok (50, (11, 5), 0) /\
+  at_stride6 (fx_unchecked fx_bytes 288 50 = Ok (50, (11, 5), 0)) /\
   fx_same fx_bytes 288 400 None 50 true = true /\
   (* the next 50 from (11, 5): an unchecked block cuts a run at the batch end (limit_reps) *)
   rfa_batch_bytes 16 16 fx_table fx_bytes 709 350 None 50 true
@@ -1040,19 +1047,19 @@ Example rfast_example_truncated :
   = Ok (mkRb (firstn 249 fx_us) (37, 30) None true (SErr InsufficientData)) /\
   rfa_batch_bytes 16 16 fx_table (firstn 300 fx_bytes) 288 400 None 1000 false
   = Ok (mkRb (firstn 249 fx_us) (37, 30) None false SOk) /\
-  fx_unchecked (firstn 300 fx_bytes) 288 400 = Ok (112, (18, 33), 288) /\
+  at_stride6 (fx_unchecked (firstn 300 fx_bytes) 288 400 = Ok (112, (18, 33), 288)) /\
   fx_same (firstn 300 fx_bytes) 288 400 None 1000 true = true /\
   fx_same (firstn 300 fx_bytes) 288 400 None 1000 false = true /\
   fx_same (firstn 300 fx_bytes) 288 400 None 50 false = true /\
   (* 230 bytes held: 47 unchecked, 135 checked *)
   rfa_batch_bytes 16 16 fx_table (firstn 230 fx_bytes) 288 400 None 1000 false
   = Ok (mkRb (firstn 182 fx_us) (28, 41) None false SOk) /\
-  fx_unchecked (firstn 230 fx_bytes) 288 400 = Ok (47, (10, 32), 353) /\
+  at_stride6 (fx_unchecked (firstn 230 fx_bytes) 288 400 = Ok (47, (10, 32), 353)) /\
   fx_same (firstn 230 fx_bytes) 288 400 None 1000 false = true /\
   (* 200 bytes held: fewer than 1475 bits from the start, no unchecked block at all *)
   rfa_batch_bytes 16 16 fx_table (firstn 200 fx_bytes) 288 400 None 1000 false
   = Ok (mkRb (firstn 151 fx_us) (24, 62) None false SOk) /\
-  fx_unchecked (firstn 200 fx_bytes) 288 400 = Ok (0, (4, 32), 400) /\
+  at_stride6 (fx_unchecked (firstn 200 fx_bytes) 288 400 = Ok (0, (4, 32), 400)) /\
   fx_same (firstn 200 fx_bytes) 288 400 None 1000 false = true.
 Proof. vm_compute. repeat split; reflexivity. Qed.
 
